@@ -171,7 +171,7 @@ MkPair(ref, t, rev, a, b, c, d, pf, pr, qf, qr) ==
 MkSingle(ref, t, rev, a, b, pf, qf) == [ reads |-> << MkRead(ref, t, 1, rev, a, b, pf, qf) >> ]
 
 Intervals == { <<a, b>> \in (0 .. L) \X (0 .. L) : a < b }
-QualPairs == { <<2, 1>>, <<1, 2>>, <<1, 1>> }
+QualPairs == { <<1, 0>>, <<0, 1>>, <<0, 0>> }     \* phred 0 is a legal quality: it must win over "no call" and tie with itself
 Pats2 == {"keep", "conv"}
 Scn(ref, rev, conv, fs) == [ ref |-> ref, rev |-> rev, conv |-> conv, frags |-> fs ]
 (* context mode: every reference window over the alphabet, one fragment whose mates both span the whole contig *)
